@@ -308,17 +308,23 @@ def onEvent (_ : Unit) (b : Book) (o : Obs) (_ : Book) : Unit × List Viol :=
     ((), if j.exited == 0 && !mayBeGone j then [s!"Result/Err on job {k} returned before its worker function returned"] else [])
   | _ => ((), [])
 
-def atEnd (b : Book) (e : EndInfo) : List Viol :=
+def atEnd (p : Params) (b : Book) (fin : Option Final) (e : EndInfo) : List Viol :=
   if !e.quiescent || e.crashed || b.crashed then [] else
+  -- a running worker at rest with nothing pending and nothing executing has finished, cancelled or
+  -- rejected every job and every batch item there ever was
+  let drained := match fin with
+    | some f => f.status == some .running && f.counts.pending == 0 && b.inflight == 0 && !p.gate
+    | none => false
   b.openCalls.foldl (fun vs c =>
     match c.2 with
-    | .jwait k => if (b.job k).exited ≥ 1 || (b.job k).closedNil then vs ++ [s!"Wait on finished/cancelled job {k} never returned"] else vs
-    | .jresult k => if (b.job k).exited ≥ 1 || (b.job k).closedNil then vs ++ [s!"Result/Err on finished/cancelled job {k} never returned"] else vs
+    | .jwait k => if (b.job k).exited ≥ 1 || (b.job k).closedNil || drained then vs ++ [s!"Wait on finished/cancelled job {k} never returned"] else vs
+    | .jresult k => if (b.job k).exited ≥ 1 || (b.job k).closedNil || drained then vs ++ [s!"Result/Err on finished/cancelled job {k} never returned"] else vs
+    | .gwait bid => if drained then vs ++ [s!"Wait on batch {bid} never returned although the worker is running, nothing is pending and nothing executes"] else vs
     | _ => vs) []
 
-def check (_ : Params) (tr : List Obs) (e : EndInfo) : List Viol :=
+def check (p : Params) (tr : List Obs) (e : EndInfo) : List Viol :=
   let (_, b, vs) := foldCheck () onEvent tr
-  vs ++ atEnd b e
+  vs ++ atEnd p b (finalOf tr) e
 end C05
 
 -- ===================================================================== C10
